@@ -7,7 +7,19 @@ VERIF = os.path.dirname(os.path.dirname(os.path.abspath(__file__)))
 COQ = os.path.join(VERIF, "coq")
 BUILD = os.path.join(VERIF, "build")
 REPO = os.environ.get("VERIF_REPO", "/repo")
-NPROC = min(16, os.cpu_count() or 4)
+def _nproc():
+    n = min(16, os.cpu_count() or 4)
+    if os.environ.get("VERIF_NPROC"):
+        return max(1, int(os.environ["VERIF_NPROC"]))
+    try:  # be a good neighbour on a loaded machine (many checks running at once): fewer parallel coqc processes
+        if os.getloadavg()[0] > 2 * n:
+            return max(2, n // 4)
+    except OSError:
+        pass
+    return n
+
+
+NPROC = _nproc()
 
 GATE_RE = re.compile(
     r"\b(Admitted|admit|Axiom|Axioms|Parameter|Parameters|Conjecture|Conjectures|Admit Obligations|"
